@@ -281,9 +281,11 @@ class FuncSpec:
       rules     counted rewrite rules
       loops     {ordinal: contract text, 'count': n}
       prologue  C text inserted at the start of the body (ghost only)
+      slice_from  program slice (DESIGN 3.3 R5): regex that must match exactly once in the body; only the text from that match to the end
+                of the body is kept (everything before it is dropped and named in the evidence)
     """
     def __init__(self, name, file, anchor, csig, ordinal=0, count=None, sig_check=None, body_match=None, contract=(),
-                 aliases=None, rules=(), loops=None, prologue='', common=True, epilogue=''):
+                 aliases=None, rules=(), loops=None, prologue='', common=True, epilogue='', slice_from=None):
         self.__dict__.update(locals())
         del self.__dict__['self']
 
@@ -293,7 +295,15 @@ def render_func(fs, info):
     if fs.sig_check and not re.search(fs.sig_check, oneline(loc.sig)):
         raise Broken('EXTRACTION-BROKEN %s: signature %r does not match %r' % (fs.name, oneline(loc.sig), fs.sig_check))
     what = '%s (%s:%d)' % (fs.name, fs.file, loc.line_sig)
-    body, fired = apply_rules(loc.body, list(fs.rules), what)
+    src_body = loc.body
+    dropped_lines = 0
+    if fs.slice_from:
+        ms = list(re.finditer(fs.slice_from, src_body))
+        if len(ms) != 1:
+            raise Broken('EXTRACTION-BROKEN %s: slice start %r matched %d times, expected 1' % (what, fs.slice_from, len(ms)))
+        dropped_lines = src_body.count('\n', 0, ms[0].start())
+        src_body = src_body[ms[0].start():]
+    body, fired = apply_rules(src_body, list(fs.rules), what)
     if fs.common:
         body, f2 = apply_rules(body, R1_COMMON, what)
         fired += f2
@@ -315,7 +325,7 @@ def render_func(fs, info):
     for a, e in (fs.aliases or {}).items():
         lines.append('#define %s %s' % (a, e))
     lines.append('{ %s' % oneline(fs.prologue))
-    lines.append('#line %d "%s"' % (loc.line_body, fs.file))
+    lines.append('#line %d "%s"' % (loc.line_body + dropped_lines, fs.file))
     lines.append(body)
     lines.append(fs.epilogue + '}')
     for a in (fs.aliases or {}):
@@ -325,6 +335,7 @@ def render_func(fs, info):
         'rules_fired': [[p, n] for p, n in fired if n],
         'sha256_body': hashlib.sha256(loc.body.encode()).hexdigest(),
         'loop_contracts': len([k for k in (fs.loops or {}) if isinstance(k, int)]),
+        'slice': ('only the text from %r to the end of the function body is under contract; the %d lines before it are dropped' % (fs.slice_from, dropped_lines)) if fs.slice_from else None,
     }
     return '\n'.join(lines) + '\n'
 
